@@ -151,6 +151,7 @@ FillEntry(kind, seed, k, a, i, j, b) ==
       [] kind = "complex" -> <<Hash(seed, k, a, i, j, b) - 3, (Hash(seed + 3, k + 1, b, j, i, a) % 5) - 2>>
       [] kind = "def"     -> <<Hash(seed, k, a, i, j, 1) - 3, 0>>
       [] kind = "cdef"    -> <<Hash(seed, k, a, i, j, 1) - 3, (Hash(seed + 3, k + 1, 1, j, i, a) % 5) - 2>>
+      [] kind = "rep"     -> <<Hash(seed, 1, a, i, j, b) - 3, 0>>      \* independent of the core index: equal cores
       [] kind = "zero"    -> CZ                                        \* the zero train
       [] kind = "zmid"    -> IF k = 2 THEN CZ ELSE <<Hash(seed, k, a, i, j, b) - 3, 0>>   \* one zero core
       [] kind = "zfirst"  -> IF k = 1 THEN CZ ELSE <<Hash(seed, k, a, i, j, b) - 3, 0>>
